@@ -5,6 +5,8 @@
 package main
 
 import (
+	"strings"
+
 	"verif/harness/hlib"
 	"verif/harness/ringh"
 )
@@ -68,6 +70,30 @@ func main() {
 							}
 							for k := 0; k < rng.Intn(4); k++ {
 								randomTask()
+							}
+							// a member tries to leave while the join is half-way (one attempt of the leave protocol);
+							// if the attempt goes through, the rest of Leave is carried out step by step
+							if len(members) >= 1 && rng.Chance(50) {
+								l := hlib.Pick(rng, members)
+								res := s.Do("execleave", ringh.U(l))
+								if strings.HasPrefix(res, "ok:") {
+									if res != "ok:alone" {
+										parts := strings.Split(res, ":")
+										s.Do("finish", parts[1], "true", "false")
+										s.Do("setstate", ringh.U(l), "Left")
+										s.Do("finish", parts[2], "false", "true")
+									} else {
+										s.Do("setstate", ringh.U(l), "Left")
+									}
+									var rest []uint64
+									for _, m := range members {
+										if m != l {
+											rest = append(rest, m)
+										}
+									}
+									members = rest
+									leaves++
+								}
 							}
 							s.Do("joinend", ringh.U(j))
 							members = append(members, j)
